@@ -7,6 +7,7 @@ import (
 	"strconv"
 
 	"verif/internal/harness"
+	"verif/internal/model"
 )
 
 // comparer walks the type description and compares the value Unpack produced
@@ -15,6 +16,8 @@ type comparer struct {
 	res        *harness.R
 	twin       map[uintptr]uintptr // pointer / map of the snapshot -> its twin in the target
 	unmodelled map[*field]bool
+	cfgs       map[uintptr]*model.Node // trees of the pre-filled *Config fields (by pointer in the snapshot)
+	cfgExp     map[*field]*model.Node  // modelled contents of the mentioned *Config fields
 	ctx        func() string
 }
 
@@ -129,8 +132,52 @@ func (k *comparer) cmpField(f *field, pre, exp, got reflect.Value, cv *cval, pc 
 				site = "tagged-field"
 			}
 			sig := listSig(pc, site, equal(def, got, false))
+			if pc.pol == "default" && pc.overridesOuter() {
+				// did the merge tag option (index-wise) lose against the policy it
+				// overrides? (what a replacing policy does to the elements of a
+				// struct list is not modelled: judged by the length alone)
+				over := polCtx{pol: pc.over}
+				if equal((&modeler{}).mergeList(f, base, cv, pc.over), got, false) ||
+					f.kind == kSliceStruct && replaces(over) && got.Len() == len(cv.list) && got.Len() < exp.Len() {
+					sig = "merge-tag-overridden-by-outer-policy:" + pc.src + ":" + pc.over
+				}
+			}
 			k.violate(sig, path, exp, got, fmt.Sprintf(" (pre-filled %s, setting %s, policy %s from %s; index-wise merge would give %s)",
 				render(base), renderGo(cv.toGo()), pc.pol, pc.src, render(def)))
+		}
+	case kConfig:
+		switch {
+		case absent && !equal(exp, got, true):
+			k.violate(unm, path, exp, got, "")
+		case absent && !k.sameRef(pre, got):
+			k.violate(unm+":identity", path, exp, got, " (equal contents, another *Config)")
+		case absent:
+		case got.IsNil():
+			k.violate(men, path, exp, got, "")
+		default:
+			want := k.cfgExp[f]
+			if want == nil {
+				return
+			}
+			k.res.Eval(2)
+			seen := configCanon(got)
+			if seen == want.CanonTop() {
+				return
+			}
+			var preTree *model.Node
+			if pre.IsValid() && !pre.IsNil() {
+				preTree = k.cfgs[pre.Pointer()]
+			}
+			// which other policy explains what is there?
+			as := "no-policy"
+			for _, p := range []string{pc.over, "default", "append", "prepend", "replace", "arr-replace"} {
+				if p != "" && p != pc.pol && mergeConfigTrees(preTree, cv.node, p).CanonTop() == seen {
+					as = p
+					break
+				}
+			}
+			k.violate("config-field-merge-wrong:"+pc.src+":"+pc.pol+":result-of-"+as, path, exp, got,
+				fmt.Sprintf(" (held %s, setting %s, policy %s from %s; want %s)", preTree, renderGo(cv.toGo()), pc.pol, pc.src, want.CanonTop()))
 		}
 	case kArrayPrim:
 		if !equal(exp, got, true) {
